@@ -48,6 +48,8 @@ KEY_CAPS_SIMPLE = "caps:SimpleProcessTensor:rank-3 tensors with transforms"
 KEY_CAPS_FILE = "caps:FileProcessTensor:transforms"
 KEY_TIME_CONTROLS = "controls:float-time controls with start_time != 0"
 KEY_HISTORY = "history:%sProcessTensor:set_mpo_tensor after the step was read"
+KEY_STACK = "controls:float-time controls of one step added in non-chronological order"
+KEY_FINAL_ONLY = "controls:post-measurement controls with record_all=False"
 
 
 @contextlib.contextmanager
@@ -194,12 +196,13 @@ def rand_system(rng, d):
     return oqupy.System(cases.rand_herm(rng, d, 0.8))
 
 
-def run_real(system, rho0, pts, n, control=None, start=0.0):
+def run_real(system, rho0, pts, n, control=None, start=0.0, record_all=True):
+    """states of steps 0..n, or only the final one with record_all=False"""
     import oqupy
     with quiet():
         dyn = oqupy.compute_dynamics(system, initial_state=rho0, dt=DT, num_steps=n,
                                      start_time=start, process_tensor=list(pts), control=control,
-                                     progress_type="silent")
+                                     record_all=record_all, progress_type="silent")
     return [np.array(s).reshape(-1) for s in dyn.states]
 
 
@@ -329,23 +332,31 @@ def dense_joint(kraus_steps, rhoE, rho0, hams, ctrl_ops, n, e, d):
 
     def ptrace(r):
         return np.einsum("axay->xy", r.reshape(e, d, e, d))
+    def apply(r, ops):
+        # one operator, or several in the order in which they act (earliest first)
+        for K1 in (ops if isinstance(ops, list) else [ops]):
+            K = np.kron(np.eye(e), K1)
+            r = K @ r @ K.conj().T
+        return r
     for k in range(n + 1):
         if (k, False) in ctrl_ops:
-            K = np.kron(np.eye(e), ctrl_ops[(k, False)])
-            rho = K @ rho @ K.conj().T
+            rho = apply(rho, ctrl_ops[(k, False)])
         states.append(ptrace(rho).reshape(-1))
         if k == n:
             break
         if (k, True) in ctrl_ops:
-            K = np.kron(np.eye(e), ctrl_ops[(k, True)])
-            rho = K @ rho @ K.conj().T
+            rho = apply(rho, ctrl_ops[(k, True)])
         rho = Iu @ rho @ Iu.conj().T
         rho = sum(W @ rho @ W.conj().T for W in kraus_steps[k])
         rho = Iu @ rho @ Iu.conj().T
     return states
 
 
-def ancilla_case(rng, variant, cls="simple", n=None, e=None, timed=False, force_step_keys=False):
+STACK_OFFSETS = [-0.035, -0.02, -0.01, 0.015, 0.03, 0.04]     # |offset| < dt/2: same step
+
+
+def ancilla_case(rng, variant, cls="simple", n=None, e=None, timed=False, force_step_keys=False,
+                 stacked=False, chronological=False, final_only=False, force_record_all=False):
     """build one ancilla process tensor + the inputs of compute_dynamics; returns a dict"""
     import oqupy
     from oqupy import operators as op
@@ -399,18 +410,44 @@ def ancilla_case(rng, variant, cls="simple", n=None, e=None, timed=False, force_
             as_time[sorted(ctrl_ops)[0]] = True
         if force_step_keys:
             as_time = {}
+    def rand_k():
+        return np.eye(d) + 0.3 * np.array([[rng.gauss(0, 1) + 1j * rng.gauss(0, 1)
+                                            for _ in range(d)] for _ in range(d)])
+    # (all of the following is drawn after the above, in this order, so that stored corpus cases
+    #  keep reproducing)
+    if final_only and not any(p and k < n for k, p in ctrl_ops):
+        ctrl_ops[(rng.randrange(n), True)] = rand_k()
+    stacks = {}        # (k, post) -> [(time offset, K)] in INSERTION order
+    if stacked:
+        # several float-time controls of one kind at distinct times that round to the same step,
+        # inserted latest-first (or, for the twin, in chronological order); they act in time order
+        cands = [kp for kp in sorted(ctrl_ops) if kp[0] < n or not kp[1]] or [(min(1, n), False)]
+        kp = rng.choice(cands)
+        offs = sorted(rng.sample(STACK_OFFSETS, rng.choice([2, 3])))
+        ks = [rand_k() for _ in offs]
+        order = list(range(len(offs))) if chronological else list(reversed(range(len(offs))))
+        stacks[kp] = [(offs[i], ks[i]) for i in order]
+        ctrl_ops[kp] = list(ks)                      # action order = time order
     ctl = oqupy.Control(d)
     for (k, post) in sorted(ctrl_ops):
+        if (k, post) in stacks:
+            for off, K in stacks[(k, post)]:
+                ctl.add_single(float(start + k * DT + off), op.left_right_super(K, K.conj().T),
+                               post=post)
+            continue
         K = ctrl_ops[(k, post)]
         ctl.add_single(control_key(k, start, as_time.get((k, post), False)),
                        op.left_right_super(K, K.conj().T), post=post)
+    record_all = not (final_only and not force_record_all)
     return dict(d=d, e=e, n=n, variant=variant, cls=cls, kraus=kraus, Us=Us, rhoE=rhoE, rho0=rho0,
-                ham=ham, spec=spec, ctrl_ops=ctrl_ops, control=ctl, start=start,
+                ham=ham, spec=spec, ctrl_ops=ctrl_ops, control=ctl, start=start, record_all=record_all,
                 desc={"variant": variant, "class": cls, "d": d, "e": e, "n": n, "joint": kind,
-                      "start_time": start,
-                      "controls": sorted("%d%s%s" % (k, "post" if p else "pre",
-                                                     "@time" if as_time.get((k, p)) else "")
-                                         for k, p in ctrl_ops)})
+                      "start_time": start, "record_all": record_all,
+                      "controls": sorted("%d%s%s" % (
+                          k, "post" if p else "pre",
+                          ("@times%+r(added in this order)" % [o for o, _ in stacks[(k, p)]])
+                          if (k, p) in stacks else ("@time" if as_time.get((k, p)) else ""))
+                          for k, p in ctrl_ops)})
 
 
 def ancilla_error(case):
@@ -419,11 +456,15 @@ def ancilla_error(case):
     pt = build_pt(case["spec"], case["d"], case["n"], case["cls"])
     try:
         real = run_real(oqupy.System(case["ham"]), case["rho0"], [pt], case["n"], case["control"],
-                        case.get("start", 0.0))
+                        case.get("start", 0.0), case.get("record_all", True))
     finally:
         drop_pt(pt)
     ref = dense_joint(case["kraus"], case["rhoE"], case["rho0"], case["ham"], case["ctrl_ops"],
                       case["n"], case["e"], case["d"])
+    if not case.get("record_all", True):
+        ref = ref[-1:]                               # only the final state is returned
+    if len(real) != len(ref):
+        return np.inf, real, ref
     return max(np.abs(a - b).max() for a, b in zip(real, ref)), real, ref
 
 
@@ -526,7 +567,8 @@ def correspondence(res, tier, rng):
         start = STARTS[c % len(STARTS)]
         control, cdesc = rand_control(rng, d, n, start)
         rho0 = cases.rand_dm(rng, d)
-        real = run_real(system, rho0, pts, n, control, start)
+        rec_all = (c % 5 != 4)
+        real = run_real(system, rho0, pts, n, control, start, rec_all)
         # history: overwrite one stored tensor of an object that has been contracted (its tensors
         # and caps were read), recompute the caps, contract again -- against a FRESH object
         # holding the same stored tensors (and, below, against the model on the fresh one's tensors)
@@ -538,9 +580,9 @@ def correspondence(res, tier, rng):
             specs[j] = dict(specs[j], mpos=[new if kk == k else t for kk, t in enumerate(specs[j]["mpos"])])
             pts[j].set_mpo_tensor(k, np.array(new, dtype=complex))
             pts[j].compute_caps()
-            again = run_real(system, rho0, pts, n, control, start)
+            again = run_real(system, rho0, pts, n, control, start, rec_all)
             pts = [build_pt(s_, d, n) for s_ in specs]
-            real = run_real(system, rho0, pts, n, control, start)
+            real = run_real(system, rho0, pts, n, control, start, rec_all)
             herr = max(np.abs(a - b).max() for a, b in zip(again, real)) \
                 / max(1.0, max(np.abs(x).max() for x in real))
             res.count("history:overwrite-then-contract")
@@ -555,7 +597,9 @@ def correspondence(res, tier, rng):
         props, controls = system_parts(system, control, start)
         ls, tensors = multi_lines(pts, n, L, rho0, props, controls)
         desc = {"n": n, "envs": [s["kind"] for s in specs], "start_time": start,
+                "record_all": rec_all,
                 "bond_dims": [s.get("dims") for s in specs], "controls": cdesc}
+        res.count("record_all=%s" % rec_all)
         checks.append((len(lines), "multi", (desc, real)))
         lines += ls
         res.count("start_time=%s" % start)
@@ -586,7 +630,7 @@ def correspondence(res, tier, rng):
                 res.count("caps:" + cls)
         # E. commutation hypothesis on two rank-3 environments without transforms + its prediction
         if m == 2 and all(s["kind"] == "rank3" for s in specs):
-            swapped = run_real(system, rho0, pts[::-1], n, control, start)
+            swapped = run_real(system, rho0, pts[::-1], n, control, start, rec_all)
             for k in range(n):
                 (T1, D1), (T2, D2) = tensors
                 checks.append((len(lines), "commute", (desc, k, real, swapped)))
@@ -622,8 +666,11 @@ def correspondence(res, tier, rng):
     for c in range(nj):
         case = ancilla_case(rng, rng.choice(["rank4", "rank4", "rank3"]),
                             e=(1 if c % 4 == 3 else 2), n=rng.randrange(1, 4 if tier != "quick" else 3),
-                            timed=(c % 3 != 2))
+                            timed=(c % 3 != 2), stacked=(c % 4 == 1), final_only=(c % 5 == 3))
         err, real, ref = ancilla_error(case)
+        res.count("ancilla:record_all=%s" % case["record_all"])
+        if c % 4 == 1:
+            res.count("ancilla:stacked float-time controls")
         n, e = case["n"], case["e"]
         E = e * e
         props, controls = system_parts(oqupy.System(case["ham"]), case["control"], case["start"])
@@ -668,6 +715,8 @@ def correspondence(res, tier, rng):
                     res.disagree("driver rejected a multi line", desc)
                     continue
                 model = parse_states(out[idx + j])
+                if len(real) == 1:                   # record_all=False: the final state only
+                    model = model[-1:]
                 errs[mode] = max(np.abs(a - b).max() for a, b in zip(real, model)) / scale
             res.case("multi:" + repr(desc), bool(desc["envs"]),
                      {"case": desc, "compute_dynamics_vs_list_model": errs.get("list"),
@@ -705,7 +754,12 @@ def correspondence(res, tier, rng):
                 continue
             a, b, c_ = out[idx].split(" # ")
             mp, mj, mf = parse_states(a), parse_states(b), parse_states(c_)
-            e1 = max(np.abs(x - y).max() for x, y in zip(real, mp))
+            if len(real) == 1:                       # record_all=False: the final state only
+                real, ref = [None] * (len(mp) - 1) + real, [None] * (len(mp) - 1) + ref
+                real, ref, mp_cmp = real[-1:], ref[-1:], mp[-1:]
+            else:
+                mp_cmp = mp
+            e1 = max(np.abs(x - y).max() for x, y in zip(real, mp_cmp))
             e2 = max(max(np.abs(x - y).max() for x, y in zip(mp, mj)),
                      max(np.abs(x - y).max() for x, y in zip(mp, mf)))
             e3 = max(np.abs(x - y).max() for x, y in zip(real, ref))
@@ -773,16 +827,31 @@ def add_tensor_cap_lines(lines, checks, s, pt, cls, n, L):
 ANCILLA_TOL = 1e-9
 
 
-def oracle_ancilla(res, gen_seed, variant, cls, key=None, wide=False, timed=False):
+def oracle_ancilla(res, gen_seed, variant, cls, key=None, wide=False, timed=False, stacked=False,
+                   final_only=False):
     rng = random.Random(gen_seed)
-    case = ancilla_case(rng, variant, cls, e=(rng.choice([3, 4]) if wide else None), timed=timed)
+    case = ancilla_case(rng, variant, cls, e=(rng.choice([3, 4]) if wide else None), timed=timed,
+                        stacked=stacked, final_only=final_only)
     err, real, ref = ancilla_error(case)
     if not err <= ANCILLA_TOL:
+        if key is None and final_only:
+            # the same computation with record_all=True (compared at every step)
+            twin = ancilla_case(random.Random(gen_seed), variant, cls, timed=timed, stacked=stacked,
+                                final_only=True, force_record_all=True)
+            if ancilla_error(twin)[0] <= ANCILLA_TOL:
+                key = KEY_FINAL_ONLY
+        if key is None and stacked:
+            # the same controls inserted in chronological order
+            twin = ancilla_case(random.Random(gen_seed), variant, cls, timed=timed, stacked=True,
+                                chronological=True, final_only=final_only)
+            if ancilla_error(twin)[0] <= ANCILLA_TOL:
+                key = KEY_STACK
         if key is None and timed:
             # the same case with every control registered by its step instead of its time
             twin = ancilla_case(random.Random(gen_seed), variant, cls,
                                 e=(random.Random(gen_seed).choice([3, 4]) if wide else None),
-                                timed=True, force_step_keys=True)
+                                timed=True, force_step_keys=True, stacked=stacked,
+                                final_only=final_only)
             if ancilla_error(twin)[0] <= ANCILLA_TOL:
                 key = KEY_TIME_CONTROLS
         if key is None:
@@ -792,9 +861,10 @@ def oracle_ancilla(res, gen_seed, variant, cls, key=None, wide=False, timed=Fals
                 key = KEY_CAPS_FILE
             else:
                 key = "joint:%s:%s" % (cls, variant)
-        steps = [int(k) for k in range(len(real)) if np.abs(real[k] - ref[k]).max() > ANCILLA_TOL]
+        steps = [int(k) for k in range(min(len(real), len(ref)))
+                 if np.abs(real[k] - ref[k]).max() > ANCILLA_TOL] or [0]
         res.fail(key, {"oracle": "ancilla", "gen_seed": gen_seed, "variant": variant, "class": cls,
-                       "wide": wide, "timed": timed,
+                       "wide": wide, "timed": timed, "stacked": stacked, "final_only": final_only,
                        "case": case["desc"], "max_state_difference": float(err),
                        "steps_that_differ": steps,
                        "compute_dynamics_state": [[complex(z).real, complex(z).imag] for z in real[steps[0]]],
@@ -927,6 +997,13 @@ def search(res):
             found = oracle_ancilla(res, rng.randrange(10 ** 9), variant, "simple", timed=True) or found
             if found:
                 break
+    # several float-time controls rounding to one step, inserted latest-first (non-commuting maps);
+    # record_all=False with post-measurement controls (final state only)
+    for kw in (dict(stacked=True, timed=True), dict(stacked=True), dict(final_only=True),
+               dict(final_only=True, timed=True)):
+        for t in range(4):
+            if oracle_ancilla(res, rng.randrange(10 ** 9), rng.choice(["rank4", "rank3"]), "simple", **kw):
+                break
     # mutable-object history: overwrite a step after it was read
     for variant in ("rank3", "rank4-basis", "rank3-pauli", "rank4"):
         for cls in ("simple", "file"):
@@ -944,7 +1021,8 @@ def replay_case(res, payload):
     key = payload.get("key")
     if fi.get("oracle") == "ancilla":
         return oracle_ancilla(res, fi["gen_seed"], fi["variant"], fi["class"], key,
-                              wide=fi.get("wide", False), timed=fi.get("timed", False))
+                              wide=fi.get("wide", False), timed=fi.get("timed", False),
+                              stacked=fi.get("stacked", False), final_only=fi.get("final_only", False))
     if fi.get("oracle") == "history":
         return oracle_history(res, fi["gen_seed"], fi["variant"], fi["class"], key)
     return False
@@ -965,7 +1043,9 @@ def run(tier, seed, replay):
         "CommuteOn evaluated exactly on shipped rank-3 tensors + the predicted order independence "
         "of the real code.  Controls are keyed by step (int) or by time (float, pre and post) and the "
         "computations start at 0, 1.5, -0.8, 0.37, -1.23 (the model gets the controls of step k from "
-        "Control.get_controls(k, dt, start_time)).  Object histories: set -> contract -> overwrite a "
+        "Control.get_controls(k, dt, start_time)); some ancilla cases stack 2-3 float-time controls "
+        "at distinct times rounding to one step, inserted latest-first (reference: time order), and "
+        "some runs use record_all=False (final state compared).  Object histories: set -> contract -> overwrite a "
         "step (set_mpo_tensor + compute_caps) -> contract again vs a fresh object with the same stored "
         "tensors (1e-12), and random set_*/get_* call traces (Simple, File; mpo, cap) vs objTrace "
         "with the regenerated memoisation wiring, exactly (which stored version each call answers "
